@@ -104,6 +104,27 @@ def judge(w: World, scn: Dict[str, Any], obs: CS.Obs, client_async: bool) -> Dic
                   **ctx)
         return {'sends': len(sends)}
     got_sleeps = [r['delay'] for r in sleeps]
+    if strategy and strategy['backoff'].get('jitter_seq'):
+        # non-constant jitter: every pause must carry a value of its own from the jitter callable
+        w.probe('jitter_sequence')
+        cap = strategy['backoff'].get('max_value')
+        used: List[float] = []
+        if len(got_sleeps) != len(exp_pauses):
+            w.violate('C09.pause', f'{len(got_sleeps)} sleeps {got_sleeps}, expected {len(exp_pauses)}', **ctx)
+        for k, (got, base) in enumerate(zip(got_sleeps, exp_pauses)):
+            if cap is not None and got == cap:
+                continue
+            comp = got - base
+            if comp <= 0 or (comp / 0.25) != int(comp / 0.25):
+                w.violate('C09.pause', f'pause {k} is {got}: base delay {base} plus {comp}, which the jitter callable never '
+                          f'returned', jitter='sequence', **ctx)
+                break
+            if comp in used:
+                w.violate('C09.pause', f'pauses {got_sleeps}: the jitter value {comp} was used for more than one pause '
+                          f'(each delay gets its own jitter)', jitter='sequence', **ctx)
+                break
+            used.append(comp)
+        exp_pauses = list(got_sleeps)
     if got_sleeps != exp_pauses:
         w.violate('C09.pause', f'sleep arguments {got_sleeps}, expected backoff delays {exp_pauses}', **ctx)
     else:
